@@ -92,6 +92,12 @@ class Tracker(Monitor):
             # it: the requests that follow cannot be attributed to one of them, so the clauses are not evaluated
             overlapping = any(r['sender'] == inst.nick and r['inc'] == inst.inc and
                               r['namespec'].split(':')[0] == app for r in self.open_stops)
+            try:
+                # the Stopper (or the Starter, for a restart) of that instance already has a job for the application
+                overlapping = overlapping or app in inst.supvisors.stopper.get_application_job_names() or \
+                    app in inst.supvisors.starter.get_application_job_names()
+            except Exception:
+                pass
             self.stop_epoch[key] = {'n': number, 'kind': kind, 'pure': kind != 'process' and not overlapping,
                                     'running': running, 't': w.now, 'step': w.steps}
         self.last_plan[(inst.nick, inst.inc, 'stop')] = w.now
@@ -791,7 +797,17 @@ class StopSequenceMonitor(Monitor):
                     lost = all(tr.sender_state.get((req['sender'], req['inc'])) and
                                self.sees(inst, n) != 'RUNNING' for n in active)
                     if not lost:
-                        self.violate('C09/process-order', f'stop request {where} (stop_sequence {seq}) while '
+                        mech = ''
+                        for n in active:
+                            mine = [r for r in tr.stops if r['sender'] == req['sender'] and r['inc'] == req['inc'] and
+                                    r['namespec'] == other and r['target_nick'] == n and r['t'] >= plan['t']]
+                            got = tr.received.get((req['sender'], req['inc'], n, other))
+                            if mine and mine[-1]['delivered'] is None and got and got[0] >= mine[-1]['t'] and \
+                                    got[1] in (0, 100, 200, 1000):
+                                # the requester took a stopped-like event of an earlier cycle of that process, still in
+                                # flight when it emitted its stop request, for the answer to that request
+                                mech = ':request-judged-on-an-event-older-than-its-delivery'
+                        self.violate('C09/process-order' + mech, f'stop request {where} (stop_sequence {seq}) while '
                                      f'{other} (stop_sequence {oseq}) is still {self.states(other, active)}',
                                      case=run.describe())
             elif oseq == seq and other != namespec:
@@ -949,6 +965,7 @@ class JobTerminationMonitor(Monitor):
         self.bound = {'start': start_ticks * retries + eff['inactivity_ticks'] + 6,
                       'stop': 3 * stop_ticks + eff['inactivity_ticks'] + 6}
         self.last_truth = {}
+        self.left_running = {}
         self.has_wait_exit = any(p.get('wait_exit') for p in progs)
 
     def last_request(self, inst, kind):
@@ -1046,9 +1063,14 @@ class JobTerminationMonitor(Monitor):
             if req['sender'] != inst.nick or req['inc'] != inst.inc or req['namespec'] in seen:
                 continue
             seen.add(req['namespec'])
-            if self.run.prog_of(req['namespec'])[1].get('wait_exit') and \
-                    self.tracker.truth.get((req['target_nick'], req['namespec'])) == 20:
-                return True
+            if self.run.prog_of(req['namespec'])[1].get('wait_exit'):
+                if self.tracker.truth.get((req['target_nick'], req['namespec'])) == 20:
+                    return True
+                # it has just exited (or its instance has just been lost): the requester learns it through the
+                # event, or through the failure detection, within the usual margin
+                left = self.left_running.get((req['target_nick'], req['namespec']))
+                if left is not None and self.run.world.now - left < self.bound['start'] * TICK:
+                    return True
         return False
 
     def on_forced(self, inst, rec):
@@ -1073,6 +1095,10 @@ class JobTerminationMonitor(Monitor):
     def on_event(self, ev):
         if ev['k'] == 'truth':
             self.last_truth[ev['namespec']] = ev['t']
+            if ev['state'] == 20:
+                self.left_running.pop((ev['inst'], ev['namespec']), None)
+            else:
+                self.left_running.setdefault((ev['inst'], ev['namespec']), ev['t'])
         if ev['k'] in ('truth', 'crash', 'boot'):
             for rec in self.pending_forced:
                 if ev['k'] != 'truth' or ev['namespec'] == rec['namespec']:
